@@ -268,14 +268,22 @@ void Server::Private::run()
         _queuedTimers.insert(now + 300 * 1000, 0); // keep "default timeout" timer
     }
 
-    while (!_closingClients.isEmpty())
+    if (!_closingClients.isEmpty())
     {
-      ClientImpl &client = *_closingClients.front();
-      _closingClients.removeFront();
-      if (client._callback)
-        client._callback->onClosed();
-      else
-        deleteClient(client);
+      do
+      {
+        ClientImpl &client = *_closingClients.front();
+        _closingClients.removeFront();
+        if (client._callback)
+          client._callback->onClosed();
+        else
+          deleteClient(client);
+      } while (!_closingClients.isEmpty());
+
+      // onClosed may have created a timer
+      timeout = _queuedTimers.begin().key() - Time::ticks();
+      if (timeout < 0)
+        timeout = 0;
     }
 
     if (!_sockets.poll(pollEvent, timeout))
